@@ -536,7 +536,28 @@ def _vars_line_entries(binc, arm_body):
     """what the -v line shows for one table entry, per entry value: {'True': [..], 'Any': [..], 'False': [..]} with items 'name' / 'name*'.
     Reads the one place that walks the entries: a `for` loop pushing into the list that is joined (or appending to the line directly,
     separators under a first-element flag), or a `filter_map` closure."""
+    tp_ = binc.ithir.get('rsbdd::print_true_vars_recursive')
+    import re as _re
+    names_params = set()
+    if tp_ is not None:
+        for p_ in tp_['params']:
+            if 'pat' in p_ and _re.search(r'(\[|Vec<)std::string::String', str((p_.get('ty') or {}).get('s'))): names_params.add(unwrap_pat(p_['pat']).get('var'))
+    entry_binds = set()
     def item_kind(e):
+        # the name shown for an entry is the header of *that* column: names[i] with `names` the parameter holding the free-variable
+        # headers and i the position of the entry in the row - not a look-up in another list (the full variable list is longer)
+        idx = [x for x in walk(e) if x['k'] == 'Index' or (x['k'] == 'Call' and callee_decl(x) in ('std::ops::Index::index',)) or
+               (x['k'] == 'Call' and (callee_name(x) or '').split('::')[-1] in ('get', 'get_unchecked', 'nth') and len(x['args']) == 2)]
+        foreign = [x for x in walk(e) if x['k'] == 'Call' and (callee_name(x) or '').startswith('rsbdd::parser::')]
+        if tp_ is not None:
+            okn = len(idx) == 1 and not foreign
+            if okn:
+                b_, i_ = (idx[0]['lhs'], idx[0]['index']) if idx[0]['k'] == 'Index' else (idx[0]['args'][0], idx[0]['args'][1])
+                bb_ = strip(b_)
+                while bb_['k'] == 'Call' and bb_['args'] and (callee_name(bb_) or '').split('::')[-1] in ('iter', 'deref', 'as_slice', 'as_ref', 'clone'): bb_ = strip(bb_['args'][0])
+                from_free = bb_['k'] == 'Field' and bb_.get('field_name') == 'free_vars'          # parsed.free_vars[i]: the same headers, read at the source
+                okn = (root_var(b_) in names_params or from_free) and root_var(i_) in entry_binds
+            if not okn: raise PredUndec('the name shown for an entry must be <names parameter>[<position of the entry>]; found %s' % pp(e)[:60])
         star = any(x['k'] == 'Literal' and ((x.get('lit') == 'Str' and '*' in x['value']) or (x.get('lit') == 'ByteStr' and b'*' in bytes(x['value']))) for x in walk(e))
         other = [x['value'] for x in walk(e) if x['k'] == 'Literal' and x.get('lit') == 'Str' and x['value'] not in ('*', '')]
         if other: raise PredUndec('the shown name is decorated with %r' % other[0])
@@ -626,6 +647,7 @@ def _vars_line_entries(binc, arm_body):
             if ct is not None and len(ct['params']) == 2: cands.append((walk_pat_bindings(ct['params'][1]['pat']), ct['body']))
     if len(cands) != 1: raise PredUndec('expected one walk over the entries of the row, found %d' % len(cands))
     binds, body = cands[0]
+    entry_binds.update(binds)
     res = {}
     for v in ('True', 'Any', 'False'):
         out = []
@@ -1438,6 +1460,25 @@ def rule_X4(F, R, clauses=('parse', 'order', 'model', 'retain', 'export', 'vars'
                     ok = bool(var_bind) and seen_ok and not extra and root_var(call['args'][1]) == var_bind and ret == root_var(call['args'][0])
         R.count('X4:extract_vars'); R.obligation(ok, 'X4 extract_vars')
         if not ok: R.violation(PF + 'extract_vars / X4 / all variables once', 'X4', 'extract_vars must return every Var token exactly once, in order of first occurrence (filter_map on Var + unique, or a loop with a seen-set)')
+        # ... and the full variable list of a formula is that list over the tokens of the text (value provenance of the `vars` field): a list
+        # gathered from the parse tree can miss names that occur only as binders
+        tn_ = lib.ithir.get(PF + 'new_with_env')
+        okv = False; gotv = None
+        if tn_ is not None:
+            import flow as _flow
+            fl_ = _flow.Flow(lib, max_depth=0)
+            lits_ = []
+            _flow.scan(fl_, tn_['body'], {}, lambda x: x.get('k') == 'Adt' and canon(x.get('adt', '')) == 'rsbdd::parser::ParsedFormula', lits_)
+            for e_, env_ in lits_:
+                for f_ in e_['fields']:
+                    if f_['name'] == 'vars':
+                        gotv = fl_.ev(f_['expr'], env_)
+                        inner_ = gotv
+                        while inner_[0] == 'call' and inner_[1].split('::')[-1] in ('clone', 'to_vec', 'to_owned', 'into', 'from') and len(inner_[2]) == 1: inner_ = inner_[2][0]
+                        okv = inner_[0] == 'call' and inner_[1] == PF + 'extract_vars' and len(inner_[2]) == 1 and inner_[2][0][0] == 'call' and inner_[2][0][1] == 'rsbdd::parser::SymbolicBDD::tokenize'
+        R.count('X4:vars-field'); R.obligation(okv, 'X4 vars field')
+        if not okv:
+            R.violation(PF + 'new_with_env / X4 / full variable list', 'X4', 'the `vars` field must be extract_vars(tokens of the text): every name of the text once (found %s)' % (_flow.show(gotv)[:120] if gotv is not None else 'no ParsedFormula literal'))
         t = lib.ithir.get(PF + 'new_with_env')
         ok = False
         if t:
